@@ -88,6 +88,11 @@ type Plan struct {
 	// the deprecated NewGcpMultiEndpoint alias
 	Verbose bool `json:"verbose,omitempty"`
 	OldCtor bool `json:"old_ctor,omitempty"`
+	// Alias: the application reuses one options object, edited in place
+	Alias bool `json:"alias,omitempty"`
+	// Twin: a second, independent GCPMultiEndpoint lives in the same process and
+	// the application uses the same context objects for RPCs on both
+	Twin bool `json:"twin,omitempty"`
 }
 
 //go:norace
@@ -132,7 +137,7 @@ func genOpts(r *rand.Rand, faults bool, timed bool) OptsSpec {
 
 //go:norace
 func Generate(r *rand.Rand, profile string, concurrent bool, avoid map[string]bool) *Plan {
-	p := &Plan{Profile: profile, Concurrent: concurrent, Verbose: r.IntN(8) == 0, OldCtor: r.IntN(6) == 0}
+	p := &Plan{Profile: profile, Concurrent: concurrent, Verbose: r.IntN(8) == 0, OldCtor: r.IntN(6) == 0, Alias: !concurrent && r.IntN(4) == 0, Twin: !concurrent && r.IntN(5) == 0}
 	bad := profile == "gmebad"
 	p.Init = genOpts(r, bad && r.IntN(4) == 0, true)
 	if concurrent {
@@ -354,7 +359,12 @@ type sim struct {
 	// concurrent bursts: history of accepted configurations, the one being
 	// applied by the (serialized) update task and the number of completed updates
 	solo      bool // probes run as the only released task
+	twin      *grpcgcp.GCPMultiEndpoint
+	twinPools []*fakePool
+	twinTasks []*kern.Task
+	ctxs      map[string]context.Context // one context object per name, shared by all calls and both instances
 	lastOpts  *grpcgcp.GCPMultiEndpointOptions
+	own       *grpcgcp.GCPMultiEndpointOptions // plan.Alias: the application's one options object
 	cfgHist   []*cfgRec
 	seq       int // harness event sequence (concurrent bursts)
 	parUsed   bool
@@ -403,6 +413,46 @@ func (s *sim) dial(ctx context.Context, target string, dopts ...grpc.DialOption)
 
 //go:norace
 func (s *sim) buildOpts(o OptsSpec) *grpcgcp.GCPMultiEndpointOptions {
+	fresh := s.buildOptsFresh(o)
+	if !s.plan.Alias || s.plan.Concurrent {
+		return fresh
+	}
+	// The application keeps ONE options object, edits it in place (endpoint
+	// slices rewritten element by element when the length fits) and passes it
+	// again: legal use, the library may not keep references into it.
+	if s.own == nil {
+		s.own = fresh
+		s.lastOpts = nil
+		return s.own
+	}
+	for name := range s.own.MultiEndpoints {
+		if _, ok := fresh.MultiEndpoints[name]; !ok {
+			delete(s.own.MultiEndpoints, name)
+		}
+	}
+	for name, nme := range fresh.MultiEndpoints {
+		old, ok := s.own.MultiEndpoints[name]
+		if !ok {
+			s.own.MultiEndpoints[name] = nme
+			continue
+		}
+		if len(old.Endpoints) == len(nme.Endpoints) && len(nme.Endpoints) > 0 {
+			for i := range nme.Endpoints {
+				old.Endpoints[i] = nme.Endpoints[i]
+			}
+			s.res.Count("fault:caller_edits_its_options_in_place", 1)
+		} else {
+			old.Endpoints = nme.Endpoints
+		}
+		old.RecoveryTimeout, old.SwitchingDelay = nme.RecoveryTimeout, nme.SwitchingDelay
+	}
+	s.own.Default = fresh.Default
+	s.lastOpts = nil // no scribbling over the object that is going to be reused
+	return s.own
+}
+
+//go:norace
+func (s *sim) buildOptsFresh(o OptsSpec) *grpcgcp.GCPMultiEndpointOptions {
 	mo := &grpcgcp.GCPMultiEndpointOptions{
 		GRPCgcpConfig:  s.cfg,
 		MultiEndpoints: map[string]*multiendpoint.MultiEndpointOptions{},
@@ -472,7 +522,7 @@ func (s *sim) call(name string, group int, fn func()) (po *callRec) {
 		}()
 		kern.HBAcquire(&s.pub) // the application publishes the constructed object properly
 		fn()
-		if name == "New" {
+		if name == "New" || name == "NewTwin" {
 			kern.HBRelease(&s.pub)
 		}
 	})
@@ -545,7 +595,11 @@ func (s *sim) run(src *simkit.Source, logOn bool) {
 	s.k = k
 	k.OnSpawn = func(parent, child *kern.Task) {
 		if child.Name == "go" {
-			s.libTasks = kern.Push(s.libTasks, child)
+			if parent != nil && parent.Name == "NewTwin" {
+				s.twinTasks = kern.Push(s.twinTasks, child) // the second instance's monitors
+			} else {
+				s.libTasks = kern.Push(s.libTasks, child)
+			}
 		}
 	}
 	k.Install()
@@ -592,7 +646,15 @@ func (s *sim) run(src *simkit.Source, logOn bool) {
 		return
 	}
 	s.accept(init)
+	if s.plan.Twin && !s.plan.Concurrent {
+		s.buildTwin()
+		if s.stop {
+			s.finish()
+			return
+		}
+	}
 	s.afterUpdate("construction")
+	s.twinProbes("after construction")
 
 	for i, o := range s.plan.Ops {
 		if s.stop || k.Aborting() {
@@ -737,11 +799,105 @@ func (s *sim) endpointsOf(me MESpec) []string {
 // returns the pool that received it.
 //
 //go:norace
-func (s *sim) probe(name string, stream bool) (*fakePool, bool) {
+func (s *sim) ctxFor(name string) context.Context {
+	if s.ctxs == nil {
+		s.ctxs = map[string]context.Context{}
+	}
+	if c, ok := s.ctxs[name]; ok {
+		return c
+	}
 	ctx := context.Background()
 	if name != noName {
 		ctx = grpcgcp.NewMEContext(ctx, name)
 	}
+	s.ctxs[name] = ctx
+	return ctx
+}
+
+var twinEps = []string{"t0:443", "t1:443"}
+
+// buildTwin constructs the second instance: "default" = [t0 t1], "read" = [t1 t0].
+//
+//go:norace
+func (s *sim) buildTwin() {
+	opts := &grpcgcp.GCPMultiEndpointOptions{
+		GRPCgcpConfig: s.cfg,
+		MultiEndpoints: map[string]*multiendpoint.MultiEndpointOptions{
+			"default": {Endpoints: []string{twinEps[0], twinEps[1]}},
+			"read":    {Endpoints: []string{twinEps[1], twinEps[0]}},
+		},
+		Default: "default",
+		DialFunc: func(ctx context.Context, target string, dopts ...grpc.DialOption) (vsync.PoolConn, error) {
+			s.k.Yield("dial")
+			p := &fakePool{s: s, endpoint: target, id: 1000 + len(s.twinPools), state: connectivity.Idle, ch: make(chan struct{}), closedCfg: -1}
+			s.twinPools = kern.Push(s.twinPools, p)
+			return p, nil
+		},
+	}
+	var err error
+	c := s.call("NewTwin", 1, func() { s.twin, err = grpcgcp.NewGCPMultiEndpoint(opts) })
+	s.k.Quiesce()
+	s.kernelFailure()
+	if s.stop || s.panicked(c, "NewGCPMultiEndpoint") {
+		return
+	}
+	if err != nil || s.twin == nil {
+		s.vio("C15", "valid-construction-rejected", "twin", fmt.Sprintf("second instance: NewGCPMultiEndpoint = %v", err))
+		return
+	}
+	s.res.Count("fault:second_instance_sharing_contexts", 1)
+}
+
+// twinProbes: the application issues RPCs on the second instance with the very
+// context objects it uses on the first. Each instance routes by its OWN
+// MultiEndpoints: the twin's pools never leave IDLE, so its MultiEndpoints
+// stay on their first endpoint.
+//
+//go:norace
+func (s *sim) twinProbes(when string) {
+	if s.twin == nil || s.stop {
+		return
+	}
+	for _, name := range []string{noName, "default", "read", "unknown", ""} {
+		want := twinEps[0]
+		if name == "read" {
+			want = twinEps[1]
+		}
+		ctx := s.ctxFor(name)
+		n0 := len(s.rpcs)
+		c := s.call("rpc", 0, func() { _ = s.twin.Invoke(ctx, "/svc/M", nil, nil) })
+		s.k.Quiesce()
+		s.kernelFailure()
+		if s.stop {
+			return
+		}
+		if c.panicked != "" {
+			fn := simkit.FuncOfStack(c.stack)
+			s.vio("C15", "rpc-panic-on-second-instance", fn, fmt.Sprintf("%s: RPC with name %q on a second GCPMultiEndpoint (same context object as used on the first) panicked in %s: %s", when, name, fn, c.panicked))
+			return
+		}
+		if !c.done || len(s.rpcs) != n0+1 {
+			s.vio("C15", "rpc-not-routed-once", "twin", fmt.Sprintf("%s: RPC with name %q on the second instance reached %d pools (returned=%v)", when, name, len(s.rpcs)-n0, c.done))
+			return
+		}
+		r := s.rpcs[n0]
+		own := false
+		for _, p := range s.twinPools {
+			if p == r.pool {
+				own = true
+			}
+		}
+		if !own || r.pool.endpoint != want {
+			s.vio("C15", "second-instance-routed-by-first", "", fmt.Sprintf("%s: RPC with name %q on the second GCPMultiEndpoint went to %s#%d (own pool: %v), its MultiEndpoints say %s", when, name, r.pool.endpoint, r.pool.id, own, want))
+			return
+		}
+		s.res.Count("probe:twin_rpc_judged", 1)
+	}
+}
+
+//go:norace
+func (s *sim) probe(name string, stream bool) (*fakePool, bool) {
+	ctx := s.ctxFor(name)
 	n0 := len(s.rpcs)
 	c := s.call("rpc", 0, func() {
 		if stream {
@@ -1083,6 +1239,7 @@ func (s *sim) exec(o Op) {
 			}
 		}
 		s.afterUpdate("update")
+		s.twinProbes("after an update of the first instance")
 	case OpPool:
 		ep := epNames[o.A%5]
 		p := s.openPool(ep)
@@ -1265,6 +1422,30 @@ func (s *sim) heal() {
 	if !proto.Equal(s.cfg, s.cfgSnap) {
 		s.vio("C17", "caller-config-mutated", "", "GCPMultiEndpoint changed the caller's GRPCgcpConfig object")
 		return
+	}
+	s.twinProbes("after faults stopped")
+	if s.stop {
+		return
+	}
+	if s.twin != nil {
+		ct := s.call("CloseTwin", 1, func() { _ = s.twin.Close() })
+		s.k.Quiesce()
+		s.kernelFailure()
+		if s.stop || s.panicked(ct, "Close") {
+			return
+		}
+		for _, p := range s.twinPools {
+			if p.closed == 0 {
+				s.vio("C16", "pool-leak", "twin-after-close", fmt.Sprintf("second instance: the pool dialled for %s was never closed", p.endpoint))
+				return
+			}
+		}
+		for _, t := range s.twinTasks {
+			if t.State() != kern.Done {
+				s.vio("C16", "goroutine-leak", "twin-after-close", fmt.Sprintf("second instance: a goroutine it started is still alive after Close (%v at %s)", t.State(), t.Site))
+				return
+			}
+		}
 	}
 	// Close releases everything
 	var err error
